@@ -171,6 +171,12 @@ def _setup(cat: dict) -> dict:
     return _state
 
 
+def _element_seed(case: dict) -> int:
+    import zlib
+
+    return zlib.crc32(json.dumps([case["door"], case["base"], case["incl"], case["excl"]]).encode())
+
+
 def _apply(schema, mode: str, kw: dict, st: dict):
     kw = dict(kw)
     e = kw.pop("__expr__", None)
@@ -183,7 +189,7 @@ def build_schema(case: dict, cat: dict, base_url: str | None = None):
     """The schema object the given front door produces for the element."""
     st = _setup(cat)
     sch = st["schemathesis"]
-    rng = random.Random(hash((case["door"], case["base"], tuple(case["incl"]), tuple(case["excl"]))) & 0xFFFFFF)
+    rng = random.Random(_element_seed(case))
     calls = [("include", f) for f in case["incl"]] + [("exclude", f) for f in case["excl"]]
     rng.shuffle(calls)  # the order of filter calls must not matter
     schema = sch.openapi.from_dict(st["raw"])
@@ -233,7 +239,7 @@ def observe(case: dict, cat: dict) -> dict:
     out: dict = {"door": case["door"], "base": case["base"], "incl": case["incl"], "excl": case["excl"], "vecs": [], "stats": [],
                  "pairs": [], "foreign": 0, "smok": False, "note": ""}
     order = ["iter", "stat", "sm"]
-    random.Random(hash((tuple(case["incl"]), tuple(case["excl"]), case["base"])) & 0xFFFF).shuffle(order)
+    random.Random(_element_seed(case) + 1).shuffle(order)
     got: dict = {}
     for what in order:
         if what == "iter":
